@@ -271,7 +271,8 @@ def render(spec: Spec, placement: str = 'root', odd_names: bool = False, with_te
     def tname(i: int, n: Node) -> str:
         # odd target names only for link/exe targets: their file names then contain a space and a '+'
         if odd_names and n.kind in 'LE':
-            return nm(i, n) + ' o+d'
+            # (odd_names == 'colon': a character Ninja needs escaped in every position of a build statement)
+            return nm(i, n) + (' o:d' if odd_names == 'colon' else ' o+d')
         return nm(i, n)
 
     def where(i: int, n: Node) -> str:
